@@ -260,6 +260,13 @@ def execute(prog):
             i = op["node"]
             eo, m = nodes[i], models[i]
             name = op["op"]
+            if toys and not libx.toy_der_ok():
+                # DER/PEM loading of user-defined curves is not available
+                if name in ("load_priv_der", "load_priv_pem"):
+                    name = "load_priv_obj"
+                if op.get("how") in ("der", "pem"):
+                    op = dict(op, how="bytes" if name != "exchange"
+                              else "obj")
             rnd = random.Random(op["fseed"])
             cv = op["cv"]
             mc = mcs[cv] if cv in mcs else None
